@@ -38,7 +38,7 @@ EXTENDS Integers, Sequences, FiniteSets, TLC
 CONSTANTS MaxCols,      \* 1..MaxCols columns
           MaxRows,      \* 0..MaxRows rows
           MaxCells,     \* bound on columns x rows
-          FreeTypes,    \* TRUE: every column's type is chosen freely; FALSE: int, text, int by position
+          FreeTypes,    \* TRUE: every column's type is chosen freely from FreeTypeSet; FALSE: int, text, uuid by position
           PVs,          \* protocol versions
           BindModes,    \* subset of {"seq", "map"}: positional / by-name binding
           MetaModes,    \* subset of {"inline", "prepared"}: result metadata in the ROWS message, or taken from the
@@ -47,16 +47,32 @@ CONSTANTS MaxCols,      \* 1..MaxCols columns
                         \* that bound / a separate instance with the same keys, both with their default (random) IV /
                         \* a separate instance with the same keys, both with explicit, different IVs
 
-Types == {"int", "text"}
+Types == {"int", "text", "uuid"}
+FreeTypeSet == {"int", "text"}          \* the types FreeTypes layouts choose from
 
 RECURSIVE BE(_, _)
 BE(w, v) == IF w = 0 THEN <<>> ELSE Append(BE(w - 1, v \div 256), v % 256)
 
 V(i, s) == [i |-> i, s |-> s]
-\* two values per type; the second ones are the awkward ones: a negative number, the empty string
-Vals(ty) == IF ty = "int" THEN {V(258, <<>>), V(0 - 2, <<>>)} ELSE {V(0, <<97, 98>>), V(0, <<>>)}
+\* A real block cipher pads: AES-CBC works on 16-byte blocks and the policy pads with PKCS7 (n bytes of value n,
+\* 1 <= n <= 16, a whole block when the plaintext is already aligned).  E / D being a bijection on ALL byte strings
+\* therefore has a corner the alphabet must contain: plaintexts that are block-aligned AND end like padding.
+PaddingLikeTail(b) ==
+    /\ Len(b) > 0 /\ Len(b) % 16 = 0
+    /\ LET n == b[Len(b)] IN n \in 1..16 /\ \A i \in (Len(b) - n + 1)..Len(b) : b[i] = n
 
-Ser(ty, v) == IF ty = "int" THEN BE(4, v.i) ELSE v.s
+Aligned16(tail) == [i \in 1..16 |-> IF i > 16 - Len(tail) THEN tail[i - (16 - Len(tail))] ELSE 96 + i]
+
+\* the awkward values: a negative number; the empty string; a 16-character string ending in two 0x02; a uuid ending in 01
+Vals(ty) ==
+    CASE ty = "int"  -> {V(258, <<>>), V(0 - 2, <<>>)}
+      [] ty = "text" -> {V(0, <<97, 98>>), V(0, <<>>), V(0, Aligned16(<<2, 2>>))}
+      [] ty = "uuid" -> {V(0, Aligned16(<<1>>)), V(0, [i \in 1..16 |-> 255 - i])}
+
+Ser(ty, v) == IF ty = "int" THEN BE(4, v.i) ELSE v.s          \* text: ASCII codes; uuid: its 16 bytes
+
+ASSUME AlphabetHasPaddingLikePlaintexts ==
+    \A ty \in {"text", "uuid"} : \E v \in Vals(ty) : PaddingLikeTail(Ser(ty, v))
 Deser(ty, b) == CHOOSE v \in Vals(ty) : Ser(ty, v) = b
 
 \* a cell value
@@ -93,8 +109,9 @@ DecodeCell(c, col, w, pm) ==
 VARIABLES case, out
 vars == <<case, out>>
 
-ColType(c) == IF c % 2 = 1 THEN "int" ELSE "text"
-Layouts(n) == {cols \in [1..n -> [ty : Types, enc : BOOLEAN]] : FreeTypes \/ \A c \in 1..n : cols[c].ty = ColType(c)}
+ColType(c) == CASE c = 1 -> "int" [] c = 2 -> "text" [] OTHER -> "uuid"
+Layouts(n) == {cols \in [1..n -> [ty : Types, enc : BOOLEAN]] :
+                  IF FreeTypes THEN \A c \in 1..n : cols[c].ty \in FreeTypeSet ELSE \A c \in 1..n : cols[c].ty = ColType(c)}
 
 RECURSIVE RowsOf(_, _, _)
 \* all sequences of r rows for the layout
@@ -139,6 +156,9 @@ C39Invariants == Transparent /\ SentEncrypted /\ NullStaysNull
 Witness_NullInEncryptedColumn == ~(\E i \in 1..R : \E c \in 1..N : case.cols[c].enc /\ case.rows[i][c].k = "null")
 Witness_MixedLayoutTwoRows == ~(R = 2 /\ \E c, d \in 1..N : case.cols[c].enc /\ ~case.cols[d].enc)
 Witness_SeparateReaderPolicy == ~(case.pol # "same" /\ R >= 1 /\ ReaderIv(case.pol) # WriterIv(case.pol))
+Witness_BlockAlignedPaddingLikeTail ==
+    ~(\E i \in 1..R : \E c \in 1..N : case.cols[c].enc /\ case.rows[i][c].k = "val"
+                                        /\ PaddingLikeTail(Ser(case.cols[c].ty, case.rows[i][c].v)))
 Witness_EmptyStringEncrypted == ~(\E i \in 1..R : \E c \in 1..N : case.cols[c].enc /\ case.rows[i][c].k = "val"
                                                                   /\ case.cols[c].ty = "text" /\ case.rows[i][c].v.s = <<>>)
 =============================================================================
